@@ -407,6 +407,38 @@ func moveOutArrayDir(w *bytes.Buffer, value json.RawMessage,
 }
 
 // Move files to the top-level pipestance outs directory.
+// Rewrite the relative symbolic links below a directory which has been
+// moved from oldPath to newPath, where they name something which is not
+// in that directory (for instance a file in it which is an output of its
+// own and was moved before): they are relative to a place they have left.
+func relinkMoved(oldPath, newPath string) {
+	_ = filepath.Walk(newPath, func(p string, info os.FileInfo, err error) error {
+		if err != nil || info.Mode()&os.ModeSymlink == 0 {
+			return nil
+		}
+		target, err := os.Readlink(p)
+		if err != nil || filepath.IsAbs(target) {
+			return nil
+		}
+		rel, err := filepath.Rel(newPath, filepath.Dir(p))
+		if err != nil {
+			return nil
+		}
+		oldTarget := filepath.Join(oldPath, rel, target)
+		if in, err := filepath.Rel(oldPath, oldTarget); err != nil ||
+			in == ".." || !strings.HasPrefix(in, "../") {
+			// What is in the directory has moved along with it.
+			return nil
+		}
+		if newTarget, err := filepath.Rel(filepath.Dir(p), oldTarget); err == nil {
+			if os.Remove(p) == nil {
+				_ = os.Symlink(newTarget, p)
+			}
+		}
+		return nil
+	})
+}
+
 func moveOutFile(w *bytes.Buffer, param *syntax.StructMember,
 	value json.RawMessage, pipestancePath, outsPath string) error {
 	var filePath string
@@ -488,9 +520,23 @@ func moveOutFile(w *bytes.Buffer, param *syntax.StructMember,
 		return err
 	}
 	verifEvent("OutMoved", "from", filePath, "to", outPath)
+	if moved, err := os.Lstat(outPath); err == nil && moved.IsDir() {
+		relinkMoved(filePath, outPath)
+	}
 
-	// Generate the relative path from files/ to outs/
-	relPath, err := filepath.Rel(filepath.Dir(filePath), outPath)
+	// Generate the relative path from files/ to outs/.  The file may
+	// have been inside a directory output which has been moved already,
+	// in which case the link ends up where that directory is now.
+	linkDir, linkTarget := filepath.Dir(filePath), outPath
+	if realDir, err := filepath.EvalSymlinks(linkDir); err == nil &&
+		realDir != filepath.Clean(linkDir) {
+		if realOut, err := filepath.EvalSymlinks(
+			filepath.Dir(outPath)); err == nil {
+			linkDir = realDir
+			linkTarget = filepath.Join(realOut, filepath.Base(outPath))
+		}
+	}
+	relPath, err := filepath.Rel(linkDir, linkTarget)
 	if err != nil {
 		if _, err := w.Write(value); err != nil {
 			return err
